@@ -29,6 +29,7 @@ func RunC12(c *Ctx, r *Report) {
 	r.Rule(prefix+"canonical-identity", "W ⊆ R: what the encoder writes is what the decoder reads back, so that re-encoding a canonical datagram is byte-identical (together with R ⊆ W and the regenerated constants/lengths)", 60)
 	w.inclusion(r, prefix+"canonical-identity", w.enc, w.dec, "the encoder", "the decoder", "re-encoding a canonical datagram would not be byte-identical")
 	w.lengthSlotRule(r, prefix+"length-slots")
+	w.listStrideAgreement(r, prefix+"list-stride-agreement")
 	w.nestedDispatchRule(r, prefix+"nested-dispatch")
 	c.akaRules(r, prefix, "stability")
 	c.akaPaddingRule(r, prefix)
